@@ -8,6 +8,7 @@ import Model.Spec.Legacy
 import Proofs.Lemmas.C17Stats
 import Proofs.Lemmas.C17Sort
 import Proofs.Lemmas.C17Order
+import Proofs.Lemmas.C17F64
 
 namespace C17
 open Legacy F64
@@ -109,6 +110,49 @@ theorem min_le_mean_le_max_partial {K : Type} [Field K] [LinearOrder K] [IsStric
 
 /-- a non-trivial instance of the hypotheses: on a two-element list the statement is about ℚ -/
 example : (bounds [one, c3]).1 = one ∧ (bounds [one, c3]).2 = c3 := by decide
+
+/-- **min_le_mean_le_max** (exact mean, positive finite retained values) — no hypothesis on the
+float order is left: on positive finite floats `F64.lt` is the order of the exact values
+(`lt_iff_val`, from the float64 lemma library).  Min and Max are elements of the retained list,
+every element lies between them in the float order `F64.le` and in exact value, and the exact
+arithmetic mean lies between their exact values. -/
+theorem min_le_mean_le_max (rv : List Bits) (hne : rv ≠ []) (hpos : ∀ x ∈ rv, PosFin x) :
+    (bounds rv).1 ∈ rv ∧ (bounds rv).2 ∈ rv ∧
+    (∀ x ∈ rv, le (bounds rv).1 x = true ∧ le x (bounds rv).2 = true) ∧
+    val (bounds rv).1 ≤ (rv.map val).sum / (rv.length : ℚ) ∧
+    (rv.map val).sum / (rv.length : ℚ) ≤ val (bounds rv).2 := by
+  obtain ⟨hm1, hm2⟩ := bounds_mem rv hne
+  have hemb : ∀ a ∈ rv, ∀ b ∈ rv, (lt a b = true ↔ val a < val b) :=
+    fun a ha b hb => lt_iff_val a b (hpos a ha) (hpos b hb)
+  have hall : ∀ x ∈ rv, val (bounds rv).1 ≤ val x ∧ val x ≤ val (bounds rv).2 := by
+    cases rv with
+    | nil => exact absurd rfl hne
+    | cons x0 xs =>
+      rw [bounds_cons]
+      exact (foldl_bounds_extremal_on val (x0 :: xs) hemb (x0 :: xs) (x0, x0)
+        (List.mem_cons_self ..) (List.mem_cons_self ..) (fun _ h => h)).2
+  have hle : ∀ a ∈ rv, ∀ b ∈ rv, val a ≤ val b → le a b = true := by
+    intro a ha b hb hab
+    rw [le_posFin a b (hpos a ha) (hpos b hb)]
+    by_contra hc
+    have h1 : lt b a = true := (lt_posFin b a (hpos b hb) (hpos a ha)).mpr (by omega)
+    exact absurd ((hemb b hb a ha).mp h1) (not_lt.mpr hab)
+  refine ⟨hm1, hm2, fun x hx => ⟨hle _ hm1 _ hx (hall x hx).1, hle _ hx _ hm2 (hall x hx).2⟩, ?_⟩
+  have hlen : (0 : ℚ) < (rv.length : ℚ) := by
+    have : 0 < rv.length := List.length_pos_of_ne_nil hne
+    exact_mod_cast this
+  have hs := sum_bounds (rv.map val) (val (bounds rv).1) (val (bounds rv).2) (by
+    intro y hy
+    obtain ⟨x, hx, rfl⟩ := List.mem_map.mp hy
+    exact hall x hx)
+  rw [List.length_map] at hs
+  exact ⟨(le_div_iff₀ hlen).mpr hs.1, (div_le_iff₀ hlen).mpr hs.2⟩
+
+/-- a non-trivial instance: three positive finite values -/
+example : ∀ x ∈ [one, c3, c100], PosFin x := by
+  intro x hx
+  simp only [List.mem_cons, List.mem_nil_iff, or_false] at hx
+  rcases hx with rfl | rfl | rfl <;> exact ⟨by decide, by decide⟩
 
 /-- retained values are never NaN: NaN fails the fence test -/
 theorem retained_not_nan (vs : List Bits) : ∀ x ∈ Spec.Legacy.retained vs, isNaN x = false := by
@@ -216,6 +260,29 @@ theorem metricOf_speed_known :
     metricOf (str "ns/op") ≠ speed ∧ metricOf (str "B/op") ≠ speed ∧ metricOf (str "ns/GC") ≠ speed ∧
     metricOf (str "x-MB/s") ≠ speed ∧ metricOf (str "allocs/op") ≠ speed := by decide +kernel
 
+/-- the ∀-unit characterisation, as the code defines it: a table's metric is "speed" exactly for
+the unit MB/s and for a unit literally called speed — the specification's `higherIsBetter`.
+(`x-MB/s` displays as `x-speed`, which is not `speed`.) -/
+theorem metricOf_speed_spec (u : Str) : metricOf u = speed ↔ Spec.Legacy.higherIsBetter u = true := by
+  rw [metricOf_speed_iff]
+  unfold Spec.Legacy.higherIsBetter
+  simp
+
+/-- **change_direction_spec** — direction by unit: for the table of unit `u` (metric `metricOf u`)
+a shown delta between different means is an improvement iff it is negative, except for the
+higher-is-better units, where it is an improvement iff it is not negative. -/
+theorem change_direction_spec (t : TestRes) (alpha : Bits) (u : Str) (old new : Metrics) (row : Row)
+    (hs : Spec.Legacy.shown t alpha = true) (hne : eq new.mean old.mean = false) :
+    (deltaPart t alpha (metricOf u) old new row).change =
+      (if Spec.Legacy.higherIsBetter u
+       then (if lt (Spec.Legacy.deltaValue old.mean new.mean) posZero then -1 else 1)
+       else (if lt (Spec.Legacy.deltaValue old.mean new.mean) posZero then 1 else -1)) := by
+  rw [change_direction t alpha (metricOf u) old new row hs hne]
+  by_cases h : metricOf u = speed
+  · rw [if_pos h, if_pos ((metricOf_speed_spec u).mp h)]
+  · have : ¬ Spec.Legacy.higherIsBetter u = true := fun hh => h ((metricOf_speed_spec u).mpr hh)
+    rw [if_neg h, if_neg this]
+
 /-- **note_spec** — the note is the reason of an undecided test, or "(p=… n=…+…)" with the
 retained sample sizes; empty for the missing test (p = −1). -/
 theorem note_spec (t : TestRes) (alpha : Bits) (metric : Str) (old new : Metrics) (row : Row)
@@ -258,6 +325,20 @@ theorem order_first_appearance_empty (kvs : List (Key × Bits)) :
       = Spec.Legacy.firstAppearance (kvs.map (·.1.unit)) :=
   (order_first_appearance {} kvs inv_empty).1
 
+/-- **order_first_appearance (benchmarks)** — `Benchmarks[g]` after any insertion sequence is the
+first-appearance list of the benchmark names of the measurements whose group is `g`. -/
+theorem benchmarks_first_appearance (c : Coll) (kvs : List (Key × Bits)) (hinv : InvB c) (g : Str) :
+    let c' := kvs.foldl (fun c kv => addValue c kv.1 kv.2) c
+    benchOf c'.benchmarks g =
+      ((kvs.filter (fun kv => decide (kv.1.group = g))).map (·.1.bench)).foldl addString (benchOf c.benchmarks g) ∧
+    InvB c' :=
+  addValues_bench c kvs hinv g
+
+theorem benchmarks_first_appearance_empty (kvs : List (Key × Bits)) (g : Str) :
+    benchOf (kvs.foldl (fun c kv => addValue c kv.1 kv.2) ({} : Coll)).benchmarks g
+      = Spec.Legacy.firstAppearance ((kvs.filter (fun kv => decide (kv.1.group = g))).map (·.1.bench)) :=
+  (benchmarks_first_appearance {} kvs invB_empty g).1
+
 /-- tables follow unit order: the tables' units are a sublist of the collection's unit list -/
 theorem tables_follow_unit_order (T : TestFn) (G : GeoFn) (c : Coll) :
     List.Sublist ((tables T G c).2.map (·.unit)) c.units := by
@@ -298,6 +379,40 @@ theorem sort_reverse_byName_spec (rows : List Row) :
     ∀ a b, List.Sublist [a, b] rows → (Order.reverse .byName).less b a = false →
       List.Sublist [a, b] (sortStable (Order.reverse .byName).less rows) :=
   sort_stable_spec _ (reverse_strict_weak _ byName_strict_weak).1 (reverse_strict_weak _ byName_strict_weak).2 rows
+
+/-- **sort_order_spec** — for every `Order` (ByName, ByDelta, any nesting of Reverse): if no row of
+the table has a NaN sort key `|PctDelta|·Change`, then `Sort` returns a permutation, sorted, and
+stable.  (`F64.lt` is a strict weak order off NaN: `lt_iff_okey`.) -/
+theorem sort_order_spec (o : Order) (rows : List Row) (hnan : ∀ r ∈ rows, isNaN (dkey r) = false) :
+    (sortStable o.less rows).Perm rows ∧
+    (sortStable o.less rows).Pairwise (fun a b => o.less b a = false) ∧
+    ∀ a b, List.Sublist [a, b] rows → o.less b a = false → List.Sublist [a, b] (sortStable o.less rows) := by
+  have hcongr : sortStable o.less rows = sortStable (sless o) rows :=
+    sortStable_congr _ _ rows (fun a ha b hb => sless_eq o a b (hnan a ha) (hnan b hb))
+  obtain ⟨hp, hs, hst⟩ := sort_stable_spec (sless o) (sless_strict_weak o).1 (sless_strict_weak o).2 rows
+  rw [hcongr]
+  refine ⟨hp, ?_, ?_⟩
+  · apply List.Pairwise.imp_of_mem _ hs
+    intro a b ha hb h
+    rw [sless_eq o b a (hnan b (hp.subset hb)) (hnan a (hp.subset ha))]
+    exact h
+  · intro a b hsub hba
+    apply hst a b hsub
+    have ha : a ∈ rows := hsub.subset (by simp)
+    have hb : b ∈ rows := hsub.subset (by simp)
+    rw [← sless_eq o b a (hnan b hb) (hnan a ha)]
+    exact hba
+
+/-- with a NaN delta `ByDelta` is not a strict weak order and the result need not be sorted:
+keys 2, NaN, 1 stay in this order although 1 < 2 -/
+theorem byDelta_nan_counterexample :
+    let r (pd : Bits) : Row := { pctDelta := pd, change := 1 }
+    (sortStable Order.byDelta.less [r 0x4000000000000000, r nan, r one]).map (·.pctDelta)
+        = [0x4000000000000000, nan, one] ∧
+    Order.byDelta.less (r one) (r 0x4000000000000000) = true ∧
+    Order.byDelta.less (r 0x4000000000000000) (r nan) = false ∧
+    Order.byDelta.less (r nan) (r one) = false := by
+  decide +kernel
 
 /-- `Reverse` swaps the arguments -/
 theorem reverse_less (o : Order) (a b : Row) : (Order.reverse o).less a b = o.less b a := rfl
